@@ -100,7 +100,7 @@ var nestings = []struct{ name, pre, core, suf string }{
 	{"long-number", "", "", ""},     // special
 }
 
-var nestDepths = []int{1, 2, 3, 7, 50, 500, 4000, 0} // 0 = as deep as 64 KiB allows
+var nestDepths = []int{1, 2, 3, 7, 12, 20, 27, 33, 50, 64, 128, 500, 4000, 0} // 0 = as deep as 64 KiB allows
 
 func genNesting() byteGen {
 	n := len(nestings) * len(nestDepths)
